@@ -415,12 +415,23 @@ def _make_entry_class():
                 return frozenset([FSYS])
             if isinstance(n, ast.Name) and n.id == 'self':
                 return env.get('self', frozenset([c18_ops.OTHER]))
+            if isinstance(n, ast.Attribute) and n.attr in self.members and not n.attr.startswith('__') \
+                    and self.ev(n.value, env) == frozenset([FSYS]):
+                return frozenset([('bound', n.attr)])          # `getter = self._get_file`: a bound method kept in a local
             return super().ev(n, env)
 
         def call(self, n: ast.Call, env: dict):
             f = n.func
+            target = None
             if isinstance(f, ast.Attribute) and f.attr in self.members and not f.attr.startswith('__') \
                     and self.ev(f.value, env) == frozenset([FSYS]):
+                target = f.attr
+            elif isinstance(f, ast.Name):
+                v = env.get(f.id, frozenset())
+                if len(v) == 1 and next(iter(v))[0] == 'bound':
+                    target = next(iter(v))[1]
+            if target is not None:
+                f = ast.Attribute(value=ast.Name(id='self', ctx=ast.Load()), attr=target, ctx=ast.Load())
                 args = list(n.args) + [k.value for k in n.keywords]
                 if not args:
                     self.calls.append((f.attr, 'PArg'))
